@@ -66,6 +66,10 @@ type Term struct {
 	Str   string // value of a String constant
 	size  int    // rough node count
 	widened bool // term is an exact float32->float64 widening of its argument
+	syms     []string // cached: solver symbols occurring in S
+	symsDone bool
+	Op       string  // structure of terms built by app (for local rewrites)
+	Args     []*Term
 }
 
 func (t *Term) String() string { return t.S }
@@ -157,7 +161,7 @@ func app(sort Sort, op string, args ...*Term) *Term {
 		sz += a.size
 	}
 	b.WriteByte(')')
-	return &Term{Sort: sort, S: b.String(), size: sz}
+	return &Term{Sort: sort, S: b.String(), size: sz, Op: op, Args: args}
 }
 
 func Sym(sort Sort, name string) *Term { return &Term{Sort: sort, S: name, size: 1} }
@@ -433,8 +437,106 @@ func Extract(hi, lo int, a *Term) *Term {
 	if lo == 0 && w == a.Sort.W {
 		return a
 	}
+	if lo == 0 && !noNarrowRewrite {
+		if r := narrow(w, a); r != nil {
+			return r
+		}
+	}
 	t := app(BVSort(w), fmt.Sprintf("(_ extract %d %d)", hi, lo), a)
 	return t
+}
+
+// noNarrowRewrite disables the narrowing rewrites (the self-test proves them with the solver).
+var noNarrowRewrite = false
+
+// extOf: if a is sign_extend/zero_extend of a term of width <= w (or a constant that is the
+// extension of its low w bits), return that term resized to w; signed selects the extension kind.
+func extOf(w int, a *Term, signed bool) *Term {
+	if a.Const {
+		lowv := a.U & mask(w)
+		var back uint64
+		if signed {
+			back = uint64(sext(w, lowv)) & mask(a.Sort.W)
+		} else {
+			back = lowv
+		}
+		if back == a.U {
+			return BVC(w, lowv)
+		}
+		return nil
+	}
+	want := "(_ zero_extend "
+	if signed {
+		want = "(_ sign_extend "
+	}
+	if strings.HasPrefix(a.Op, want) && len(a.Args) == 1 && a.Args[0].Sort.W <= w {
+		in := a.Args[0]
+		if in.Sort.W == w {
+			return in
+		}
+		if signed {
+			return SignExt(w, in)
+		}
+		return ZeroExt(w, in)
+	}
+	return nil
+}
+
+// narrow(w, a) = the low w bits of a, for shapes where they are computable at width w:
+//   low_w(ext(x))                      = x resized
+//   low_w(sdiv/srem(sext x, sext y))   = sdiv/srem_w(x, y)     (also for y = 0 and MinInt / -1)
+//   low_w(udiv/urem(zext x, zext y))   = udiv/urem_w(x, y)
+//   low_w(add/sub/mul/and/or/xor(a,b)) = op_w(low_w a, low_w b) when both operands narrow
+// Each rule is proved by the solver at 8/16 bits in the engine self-test (T00).
+func narrow(w int, a *Term) *Term {
+	if a.Sort.K != SBV || a.Sort.W <= w || len(a.Args) == 0 {
+		return nil
+	}
+	if (strings.HasPrefix(a.Op, "(_ sign_extend ") || strings.HasPrefix(a.Op, "(_ zero_extend ")) && len(a.Args) == 1 {
+		in := a.Args[0]
+		switch {
+		case in.Sort.W == w:
+			return in
+		case in.Sort.W > w:
+			return Extract(w-1, 0, in)
+		case strings.HasPrefix(a.Op, "(_ sign_extend "):
+			return SignExt(w, in)
+		default:
+			return ZeroExt(w, in)
+		}
+	}
+	if len(a.Args) != 2 {
+		return nil
+	}
+	switch a.Op {
+	case "bvsdiv", "bvsrem":
+		x, y := extOf(w, a.Args[0], true), extOf(w, a.Args[1], true)
+		if x != nil && y != nil {
+			return bvBin(a.Op, x, y)
+		}
+	case "bvudiv", "bvurem":
+		x, y := extOf(w, a.Args[0], false), extOf(w, a.Args[1], false)
+		if x != nil && y != nil {
+			return bvBin(a.Op, x, y)
+		}
+	case "bvadd", "bvsub", "bvmul", "bvand", "bvor", "bvxor":
+		x, y := lowBits(w, a.Args[0]), lowBits(w, a.Args[1])
+		if x != nil && y != nil {
+			return bvBin(a.Op, x, y)
+		}
+	}
+	return nil
+}
+
+// lowBits: the low w bits of a when they are available without an extract node.
+func lowBits(w int, a *Term) *Term {
+	if a.Const {
+		return BVC(w, a.U)
+	}
+	if (strings.HasPrefix(a.Op, "(_ sign_extend ") || strings.HasPrefix(a.Op, "(_ zero_extend ")) && len(a.Args) == 1 && a.Args[0].Sort.W >= w {
+		return Extract(w-1, 0, a.Args[0])
+	}
+	return narrow(w, a)
 }
 
 func ZeroExt(to int, a *Term) *Term {
@@ -515,7 +617,25 @@ func fpBin(op string, a, b *Term) *Term {
 			}
 		}
 	}
-	return &Term{Sort: a.Sort, S: fmt.Sprintf("(%s %s %s %s)", op, rne, a.S, b.S), size: a.size + b.size + 1}
+	return &Term{Sort: a.Sort, S: fmt.Sprintf("(%s %s %s %s)", op, rne, a.S, b.S), size: a.size + b.size + 1, Op: op, Args: []*Term{a, b}}
+}
+
+// noDoubleRounding disables the rewrite float32(float64(x) op float64(y)) -> x op y.
+var noDoubleRounding = false
+
+// f32Of: the float32 term whose exact widening a (float64) is, or nil.
+func f32Of(a *Term) *Term {
+	if a.Const {
+		f := math.Float64frombits(a.U)
+		if g := float32(f); float64(g) == f || f != f {
+			return F32C(g)
+		}
+		return nil
+	}
+	if a.widened && len(a.Args) == 1 {
+		return a.Args[0]
+	}
+	return nil
 }
 
 func fpCmp(op string, a, b *Term) *Term {
@@ -617,9 +737,17 @@ func FPConvert(a *Term, to int) *Term {
 			inner := a.S[len(pre) : len(a.S)-1]
 			return &Term{Sort: F32Sort, S: inner, size: a.size - 1}
 		}
+		// double rounding is innocuous for one + - * / on widened operands (53 >= 2*24+2, Figueroa 1995):
+		// float32(float64(x) op float64(y)) == x op y.  Trusted theorem; `gosym lemmas` proves the
+		// half->single precision analogue with the solver.
+		if !noDoubleRounding && len(a.Args) == 2 && (a.Op == "fp.add" || a.Op == "fp.sub" || a.Op == "fp.mul" || a.Op == "fp.div") {
+			if x, y := f32Of(a.Args[0]), f32Of(a.Args[1]); x != nil && y != nil {
+				return fpBin(a.Op, x, y)
+			}
+		}
 		return &Term{Sort: F32Sort, S: fmt.Sprintf("((_ to_fp 8 24) %s %s)", rne, a.S), size: a.size + 1}
 	}
-	return &Term{Sort: F64Sort, S: fmt.Sprintf("((_ to_fp 11 53) %s %s)", rne, a.S), size: a.size + 1, widened: true}
+	return &Term{Sort: F64Sort, S: fmt.Sprintf("((_ to_fp 11 53) %s %s)", rne, a.S), size: a.size + 1, widened: true, Args: []*Term{a}}
 }
 
 func IntToFP(a *Term, signed bool, to int) *Term {
